@@ -164,7 +164,7 @@ class Run:
         cov.update(self.extra)
         ev = {"property_id": self.prop, "tier": self.tier, "seed": self.seed, "level": self.level, "coverage": cov,
               "assumptions": self.assumptions, "wall_s": round(wall, 2), "violations": len(self.violations)}
-        if not self.replay:
+        if not self.replay and not os.environ.get("VERIF_NO_EVIDENCE"):   # (set by tools/seeded.py when /repo carries a seeded change)
             os.makedirs(EVIDENCE, exist_ok=True)
             with open(os.path.join(EVIDENCE, "%s.json" % self.prop), "w") as f:
                 json.dump(ev, f, indent=1, default=str)
